@@ -1,6 +1,6 @@
 (* Pinned statements of C13 (generated once by tools/mkpins.py from coq/props/C13.v, then committed). *)
 From DV Require Import Model.Base Model.Parser Model.Header Model.Readers Model.Uncompress Model.Mutate
-  Model.Gen Model.Text Spec.NameSpec Proofs.Hoare Proofs.SynthTotal Proofs.NameText Proofs.SynthShape props.C13.
+  Model.Gen Model.Text Spec.NameSpec Proofs.Hoare Proofs.SynthTotal Proofs.NameText Proofs.SynthShape Model.NameCheck Spec.PacketSpec Spec.RecordSpec Spec.PlainSpec Proofs.ReadersLabels Proofs.InsertSpec Proofs.BuiltRecord props.C13.
 Check (C13_synth_total : forall s : bytes, nopanic (rr_from_string s)).
 Print Assumptions C13_synth_total.
 Check (C13_synth_result_cases : forall s : bytes,
@@ -23,3 +23,21 @@ Check (C13_soa : forall n ttl a b ts refresh retry auth neg rr,
     rr_shape_with rr TYPE_SOA (wire_of_labels ls1 ++ wire_of_labels ls2 ++ be32_bytes ts ++ be32_bytes refresh ++
                                be32_bytes retry ++ be32_bytes auth ++ be32_bytes neg)).
 Print Assumptions C13_soa.
+Check (C13_built_record_is_insertable : forall name ttl cls t rd rr,
+  rr_new name ttl cls t rd = Ok rr -> bytes_ok rd -> (t < 65536)%N -> (cls < 65536)%N -> (ttl < 4294967296)%N -> raw_type t ->
+  (t = TYPE_A -> length rd = 4) -> (t = TYPE_AAAA -> length rd = 16) ->
+  exists ls, Forall label_ok ls /\ (name = dotted ls \/ name = dots ls \/ (name = [46%N] /\ ls = [])) /\
+    rr = plain_record (raw_rec ls t cls ttl rd) /\ plain_rr_ok (raw_rec ls t cls ttl rd)).
+Print Assumptions C13_built_record_is_insertable.
+Check (C13_built_record_inserts : forall name ttl t rd rr p v it sec s',
+  rr_new name ttl CLASS_IN t rd = Ok rr -> bytes_ok rd -> (t < 65536)%N -> (ttl < 4294967296)%N -> raw_type t ->
+  (t = TYPE_A -> length rd = 4) -> (t = TYPE_AAAA -> length rd = 16) ->
+  bytes_ok p -> parse p = Ok v -> sec = SAnswer \/ sec = SNameServers \/ sec = SAdditional ->
+  (sec <> SAdditional -> exists w, u16_at p 2 w /\ N.land w 32768 = 32768%N) ->
+  m_insert_rr sec rr (v, it) = (s', Ok tt) ->
+  exists f, bytes_ok (pp_packet (fst s')) /\ wf_packet (pp_packet (fst s')) /\ parse (pp_packet (fst s')) = Ok f /\
+    pp_offset_question (fst s') = pp_offset_question f /\ pp_offset_answers (fst s') = pp_offset_answers f /\
+    pp_offset_nameservers (fst s') = pp_offset_nameservers f /\ pp_offset_additional (fst s') = pp_offset_additional f /\
+    pp_offset_edns (fst s') = pp_offset_edns f /\ pp_edns_count (fst s') = pp_edns_count f /\
+    pp_maybe_compressed (fst s') = false /\ pp_cached (fst s') = None).
+Print Assumptions C13_built_record_inserts.
